@@ -483,6 +483,11 @@ def data_rows(draw, N, n, kind):
         elif kind == "ints":
             rows.append([float(v) for v in draw(st.lists(
                 st.integers(-5, 5), min_size=n, max_size=n))])
+        elif kind == "lattice":
+            # few integer levels with plateaus: distances equal to an integer
+            # threshold (and distance 0 between distinct times) are common
+            rows.append([float(v) for v in draw(st.lists(
+                st.integers(0, 3), min_size=n, max_size=n))])
         elif kind == "zero_sum":
             r = draw(st.lists(st.integers(-9, 9), min_size=n, max_size=n))
             r[-1] -= sum(r)
@@ -541,10 +546,14 @@ def history_cases(draw):
 def twin_history_cases(draw):
     N = draw(st.integers(1, 3))
     n = draw(st.integers(4, 48))
-    data = draw(data_rows(N, n, "clustered"))
+    lattice = draw(st.integers(0, 3)) == 0
+    data = draw(data_rows(N, n, "lattice" if lattice else "clustered"))
     ops = []
     for _ in range(draw(st.integers(1, 4))):
         op = draw(twin_params(n))
+        if lattice:
+            # thresholds that coincide with occurring distances
+            op["thr"] = draw(st.sampled_from([0.0, 1.0, 2.0, 1.0]))
         op["a"] = draw(st.integers(0, 2 ** 32 - 1))
         op["b"] = draw(st.integers(0, 2 ** 32 - 1))
         op["direct"] = draw(st.integers(0, 2)) == 0
